@@ -156,7 +156,7 @@ def stepLine (loopMode : Bool) (s : St) (line : String) : St × String :=
     match kvNat? [idw] "id" with
     | some id =>
       let m : Option WMsg :=
-        if what == "drop" then some .dropped
+        if what == "drop" || what == "drop-held" then some .dropped
         else if what == "usable=1" then some (.usability true)
         else if what == "usable=0" then some (.usability false)
         else (kv? [what] "snap").bind (candOfString? id) |>.map (fun c => .source c 100 [] [])
